@@ -341,6 +341,25 @@ def run(world, rep, tier, only=None):
                "every path from ext2fs_block_iterate3() to an inode write passes a fresh inode read: stale writes at lines %s" %
                [w_.line for w_ in stale], wit)
 
+    # ------------------------------------------------------------------ C11.i switching dir_index off deals with the index flags
+    # Directories keep EXT2_INDEX_FL when only the feature bit is cleared, and e2fsck rejects that.  Turning the
+    # feature off must lead to the directory rewrite (REWRITE_DIR_FL) or to a request for e2fsck - with and without
+    # metadata_csum.
+    ufs = prog.fn("update_feature_set", TF)
+    deal = [n for n in ufs.events("S") if T.path(n.ev["lhs"]) == "rewrite_checksums" and "REWRITE_DIR_FL" in T.macros(n.ev.get("rhs") or {})] + \
+        calls_to(ufs, "request_fsck_afterwards", "request_dir_fsck_afterwards")
+    cover = set()
+    for d_ in deal:
+        lits = control_lits(ufs, d_)
+        if not any("EXT2_FEATURE_COMPAT_DIR_INDEX" in T.macros(a) for t, a in lits):
+            continue
+        pol = [t for t, a in lits if any(c.get("fn") == "ext2fs_has_feature_metadata_csum" for c in T.calls(a))]
+        cover.add(pol[0] if pol else None)
+    rep.floor("C11.i reactions to dir_index being switched off", len(cover), 1)
+    rep.ob("C11.i", site(ufs, "^dir_index leads to the directory rewrite or to a request for e2fsck, with and without metadata_csum"),
+           None in cover or {True, False} <= cover,
+           "reactions under a test of EXT2_FEATURE_COMPAT_DIR_INDEX exist for metadata_csum = %s" % sorted(map(str, cover)))
+
     # ------------------------------------------------------------------ C11.h a full index node is recognised before its limit is lowered
     # Enabling metadata_csum takes the room of one dx_entry at the end of every htree index block for the checksum.
     # A node that is completely full (count == limit, as e2fsck -D packs them) cannot give it up: rewrite_dir_block()
